@@ -213,9 +213,28 @@ func genSession(g *vh.Gen, idx int, big bool) (string, string, string) {
 		flavour = "file"
 	}
 	capN := 0
+	maxKB := 0
 	if g.Chance(0.12) {
 		capN = 1 + g.Intn(5)
+	}
+	if flavour == "mem" && g.Chance(0.3) {
+		// store-wide size limit of the memory store: limits over orders of magnitude
+		maxKB = []int{1, 1, 1, 2, 4, 16, 128}[g.Intn(7)]
+	}
+	if capN > 0 || maxKB > 0 {
 		flavour += ":" + strconv.Itoa(capN)
+		if maxKB > 0 {
+			flavour += ":" + strconv.Itoa(maxKB)
+		}
+	}
+	// a delivery sized to push the store over its limit: evicts one / some / all of what it holds
+	bigSrc := func() []byte {
+		n := []int{90, 300, 600, 900, 1100, 2100, 5000, 20000, 140000}[g.Intn(9)]
+		b := []byte("Subject: filler\r\n\r\n")
+		for len(b) < n {
+			b = append(b, "0123456789abcdefghijklmnopqrstuvwxyz0123456789ABCDEFGHIJKLMNOPQRSTUVWX\r\n"...)
+		}
+		return b[:n]
 	}
 	user := g.Pick(users...)
 	n := g.Intn(9)
@@ -260,6 +279,13 @@ func genSession(g *vh.Gen, idx int, big bool) (string, string, string) {
 			if capN > 0 && g.Chance(0.5) {
 				r = 0
 			}
+			if maxKB > 0 && g.Chance(0.6) {
+				// deliveries elsewhere (or to the session's own mailbox) that the size limit answers with evictions
+				tgt := g.Pick("zed", "zed", other, user)
+				e.add("d" + vh.HS(tgt) + ":" + vh.H(bigSrc()))
+				delivered[tgt]++
+				continue
+			}
 			switch {
 			case r < 4:
 				e.add("d" + vh.HS(box) + ":" + vh.H(genSource(g, false)))
@@ -297,8 +323,12 @@ func genSession(g *vh.Gen, idx int, big bool) (string, string, string) {
 	// TRANSACTION
 	ncmd := g.Intn(26)
 	pipeline := ""
+	extP := 0.12
+	if maxKB > 0 {
+		extP = 0.3
+	}
 	for i := 0; i < ncmd; i++ {
-		external(0.12)
+		external(extP)
 		line := genTransLine(g, n) + eolCmd(g)
 		if g.Chance(0.08) {
 			pipeline += line // goes out together with the next line
